@@ -73,7 +73,9 @@ func genC08(r *PRNG, tier string) *Scenario {
 	}
 	if mode == "error" {
 		end.HandlerErrAt = r.Range(1, nctl+1)
+		end.HandlerErrKind = r.PickS([]string{"", "", "eof", "ueof"})
 	}
+	end.ResetHandlers = r.Chance(1, 3)
 	l := Link{Script: script, ScriptChunk: r.Pick([]int{0, 0, 1, 100})}
 	task := TaskCfg{Kind: "reader", R: genReadProg(r, r.PickS([]string{"", "noabandon", "noabandon"})), ExtraReads: r.Pick([]int{1, 3})}
 	if realIsServer {
@@ -225,6 +227,11 @@ func oracleC08(run *Run) {
 		// the read call returns the handler's error, permanently
 		if errAt == len(obs) {
 			run.fail("C08", "handler-error-lost", "lost", "%s: a handler returned an error but the read program saw none", who)
+		} else if k := e.Cfg.HandlerErrKind; k == "eof" || k == "ueof" {
+			// the handler returned an EOF value. The library may report it as it is or, inside a message, as
+			// its own unexpected-EOF error; what matters is that the read fails (checked above) and that the
+			// unfinished message is not reported complete (the delivery check)
+		} else if !errors.Is(obs[errAt].ErrVal, errHandler) {
 		} else if !errors.Is(obs[errAt].ErrVal, errHandler) {
 			run.fail("C08", "handler-error-lost", "replaced", "%s: a handler returned an error but the read API returned %q", who, obs[errAt].ErrText)
 		}
